@@ -12,10 +12,10 @@ for n in $names; do
   git -C /repo checkout -- . && git -C /repo clean -fdq
   v=$(echo "$out" | grep -E "^VIOLATION" | head -1)
   kind="MISSED"
-  case $n in *-h|*-v|*-y) kind="quiet(ok)";; esac
+  case $n in *-h|*-v|*-y|*-x) kind="quiet(ok)";; esac
   if [ $rc -ne 0 ] && [ -n "$v" ]; then
     if echo "$v" | grep -q "no-failing-input-found"; then kind="detected(no-failing-input-found)"; else kind="detected(with failing input)"; fi
-    case $n in *-h|*-v|*-y) kind="ALARM-ON-HARMLESS:$kind";; esac
+    case $n in *-h|*-v|*-y|*-x) kind="ALARM-ON-HARMLESS:$kind";; esac
   fi
   w=$(echo "$out" | grep -E "^(WITNESS|BROKEN)" | head -1 | cut -c1-220 | tr '\t' ' ')
   echo -e "$n\t$pid\t$kind\t$w"
